@@ -34,8 +34,10 @@ FIELD_MAX = {}
 
 
 class UB:
-    def __init__(self, fn, accessors, enum_max=None, tables=None, param_ub=None):
+    def __init__(self, fn, accessors, enum_max=None, tables=None, param_ub=None, row_leaf=None):
         self.fn = fn
+        self.row_leaf = row_leaf      # optional: values of `op_data.<field>` leaves for ONE table row (conditions over them are folded)
+        self.m = None
         self.acc = accessors          # qualified name -> Fn
         self.enum_max = enum_max or {}
         self.tables = tables or {}     # qualified name of a constant table -> list of row dicts
@@ -56,8 +58,8 @@ class UB:
                 l = fn.e(fn.strip(x["sub"]))
                 if l and l["k"] == "ref" and "did" in l:
                     self.assigned.setdefault(l["did"], []).append(i)
-        self.m = self._analysis()
         self._acc_cache = {}
+        self.m = self._analysis()
 
     def _analysis(self):
         fn = self.fn
@@ -85,6 +87,12 @@ class UB:
                 small, big, rel = (x["rhs"], x["lhs"], "<" if x["op"] == ">" else "<=") if holds else (x["lhs"], x["rhs"], "<=" if x["op"] == ">" else "<")
             bx = fn.e(fn.strip(big))
             c = bx.get("cv") if bx is not None else None
+            if not isinstance(c, int) and bx is not None and bx["k"] == "ref" and bx.get("dk") == "local" and bx.get("did") in self.inits \
+               and not self.assigned.get(bx.get("did")):
+                # compared with an immutable local: its own upper bound bounds the smaller side
+                c = self.ub(self.inits[bx["did"]], None, 4)
+                if c >= (1 << 32):
+                    c = None
             if not isinstance(c, int) or c < 0:
                 return ()
             lim = c if rel == "<=" else c - 1
@@ -157,7 +165,7 @@ class UB:
                         best = min(best, self.param_ub[(fn.name, pi)])
             if x.get("ty") in self.enum_max:
                 best = min(best, self.enum_max[x["ty"]])
-            st = (self.m.before(at) if at is not None else None) or frozenset()
+            st = (self.m.before(at) if (at is not None and self.m is not None) else None) or frozenset()
             for f_ in st:
                 if f_[0] == "ub" and f_[1] == x.get("did"):
                     best = min(best, f_[2])
@@ -222,6 +230,13 @@ class UB:
         if k == "unop" and x["op"] == "!":
             return 1
         if k == "cond":
+            if getattr(self, "row_leaf", None) is not None:
+                from . import exprfold
+                try:
+                    cv_ = exprfold.Folder({}, self.row_leaf, 64).fold(fn, x["c"])
+                    return self.ub(x["a"] if cv_ else x["b"], at, depth + 1)
+                except exprfold.Unknown:
+                    pass
             return max(self.ub(x["a"], at, depth + 1), self.ub(x["b"], at, depth + 1))
         if k in ("mcall", "call"):
             if x.get("cn") == "get_field" and x.get("targs"):
